@@ -163,6 +163,29 @@ std::string gen_posix_footer(Rng* r, bool valid) {
   }
   if (valid) return s;
   // Near misses.
+  if (r->chance(0.2)) {
+    // Sentences whose length exactly fills (or just misses) the capacity steps of a std::string grown one
+    // character at a time (15, 30, 60, 120, 240, ...): an over-read by one is then an out-of-bounds read.
+    static const std::vector<int> caps = {15, 30, 60, 120, 240, 480};
+    size_t L = static_cast<size_t>(r->pick(caps) + r->range(-1, 1));
+    auto pad = [&](const std::string& head, const std::string& tail) {
+      std::string t = head;
+      static const char fill[] = "ABCDEFGHIJKLMNOPQRSTUVWXYZabcdefghijklmnopqrstuvwxyz0123456789+-";
+      bool alnum_only = r->chance(0.5);
+      while (t.size() + tail.size() < L) t.push_back(alnum_only ? fill[r->below(52)] : fill[r->below(64)]);
+      return t + tail;
+    };
+    switch (r->below(8)) {
+      case 0: return pad("<", "");                       // unterminated quoted abbreviation
+      case 1: return pad("EST5<", "");                   // ... in the dst position
+      case 2: return pad("", "");                        // a bare over-long abbreviation
+      case 3: return pad("<", ">");                      // quoted abbreviation, offset missing
+      case 4: return pad("<", ">5");                     // over-long but well-formed std-only spec
+      case 5: return pad("EST5", ",M3.2.0,M11.1.0");     // over-long dst abbreviation
+      case 6: return pad("EST5EDT,M3.2.0,M11.1.0/", ""); // junk where a time is expected
+      default: return pad("<+", ">-3<+").substr(0, L);
+    }
+  }
   switch (r->below(16)) {
     case 0: return s.substr(0, r->below(s.size() + 1));                       // truncated anywhere
     case 1: { size_t c = s.find(','); return c == std::string::npos ? s + "," : s.substr(0, c + 1); }  // dropped rules
@@ -182,6 +205,8 @@ std::string gen_posix_footer(Rng* r, bool valid) {
     default: { std::string t = s; if (!t.empty()) t[r->below(t.size())] = static_cast<char>(r->below(256)); return t; }
   }
 }
+
+std::string std_footer_for(const std::string& abbr, int32_t utoff) { return fmt_abbr(abbr) + fmt_off(-utoff); }
 
 TzData synth_zone(uint64_t recipe_seed) {
   Rng r(mix64(recipe_seed, 0x5eed));
